@@ -281,6 +281,22 @@ def snapshot_state(
         m.update(storage.digest())
     storage_hash = m.digest()
 
+    # block: the next transaction starts from it (e.g. after vm.roll in a handler)
+    m = xxh3_64(storage_hash)
+    block = ex.block
+    for val in (
+        block.basefee,
+        block.chainid,
+        block.coinbase,
+        block.difficulty,
+        block.gaslimit,
+        block.number,
+        block.timestamp,
+    ):
+        val = val.unwrap() if hasattr(val, "unwrap") else val
+        m.update(int.to_bytes(val if isinstance(val, int) else val.get_id(), length=32))
+    storage_hash = m.digest()
+
     # path
     m = xxh3_64()
     if include_path:
